@@ -64,6 +64,37 @@ def spellings(env, modes, i, k, vec_of):
     return f(), k % len(forms)
 
 
+CONTRACT_WORDS = ("observation", " obs", "action", "space", "tuple", "dtype", "shape", "bool", "float", "info", "contain", "return")
+
+
+def gym_checker(scn, modes, rep, record):
+    """Gymnasium's own contract checker (gymnasium.utils.env_checker.check_env) on a fresh environment of the
+    scenario: it uses the environment the way the Gymnasium documentation says an environment is used.  An
+    exception raised inside nasim while the checker drives it, or a complaint of the checker about observations /
+    actions / spaces / returned tuples, is a C10 failure; other complaints (seeding determinism ...) are counted
+    only - they are not part of this property."""
+    import warnings
+    from gymnasium.utils.env_checker import check_env
+    env = sources.make_env(scn, **modes)
+    try:
+        with warnings.catch_warnings():
+            warnings.simplefilter("ignore")
+            check_env(env, skip_render_check=True)
+        if record:
+            rep.count("gymnasium-check_env-passed")
+    except Exception as e:
+        inside, where = engine.from_nasim(sys.exc_info()[2])
+        msg = f"{type(e).__name__}: {str(e)[:300]}"
+        if inside:
+            raise Failure("C10:check_env-exception", f"gymnasium's check_env(env): nasim raised {msg} at {where}",
+                          bucket=f"C10:check_env-exception:{type(e).__name__}@{where}")
+        low = str(e).lower()
+        if "seed" not in low and "determin" not in low and any(w in low for w in CONTRACT_WORDS):
+            raise Failure("C10:check_env", f"gymnasium's check_env(env) rejects the environment: {msg}")
+        if record:
+            rep.count("gymnasium-check_env-complaint(not owned)")
+
+
 def run_case(case, rep, record=True):
     failed = set()
     nops = 0
@@ -148,6 +179,7 @@ def run_case(case, rep, record=True):
             check_step_tuple(out, f"step({act})")
             check_obs(env, scn, out[0], modes, f"step({act})")
             h.mst = h.dyn(env.current_state.tensor)
+        gym_checker(scn, modes, rep, record)
         if record and len(rep.samples) < rep.max_samples:
             rep.sample(dict(source=case["source"]["kind"], modes=modes, n_ops=len(case["ops"]),
                             obs_space=dict(shape=list(env.observation_space.shape),
